@@ -81,8 +81,9 @@ class Sides:
     """normal driver, ASan driver, extracted model; built once per check"""
     def __init__(self, chk):
         # private copies: other checks may relink the shared driver directories while the streams below run
-        d = os.path.join(vlib.WORK, "tmp", "c11bin-%s" % chk.pid)
+        d = os.path.join(vlib.WORK, "tmp", "c11bin-%s" % chk.pid, str(os.getpid()))
         os.makedirs(d, exist_ok=True)
+        self.bindir = d
         def private(path, lock, name):
             dst = os.path.join(d, name)
             with vlib.Lock(lock):
@@ -598,6 +599,10 @@ def cli_scenario(chk, llb, S, style, name, mode, event, variant, malformed=None)
     mok, mkeys = mo[0].split(" ")[0] == "1", [unhx(x) for x in mo[0].split(" ")[1].split(",")] if mo[0].split(" ")[1] != "." else []
     norm = lambda k: os.path.normpath(os.path.join(S.encode(), k))
     rp["model"] = dict(succeeds=mok, keys=[repr(k) for k in mkeys], tracks_the_path=norm(P) in [norm(k) for k in mkeys])
+    if style == "dependency-info":
+        rc0, m0, e0 = vlib.run_lines(sides(chk).model, ["process_depinfo_v0 " + hx(data)])
+        k0 = [unhx(x) for x in m0[0].split(" ")[1].split(",")] if m0[0].split(" ")[1] != "." else []
+        rp["model_before_ba34c0a"] = dict(keys=[repr(k) for k in k0], tracks_the_path=norm(P) in [norm(k) for k in k0])
     if malformed is not None:
         rc, n = build("build with the malformed dependency file")
         if rc == 0:
@@ -639,13 +644,25 @@ def private_llbuild(base):
         shutil.copy2(llb, dst)
     return dst
 
+def sandbox():
+    """a sandbox private to this run: concurrent runs of the check cannot collide"""
+    return os.path.join(vlib.WORK, "tmp", "c11", str(os.getpid()))
+
+# histories that once failed; always run first, in both tiers.  (style, name, mode, event, variant)
+CORPUS_CLI = [
+    # fixed by /repo ba34c0a: dependency-info inputs were keyed verbatim, not resolved against the working-directory
+    ("dependency-info", b"h d", "relative-wd", "modify", 18),
+    ("dependency-info", b"h", "relative-wd", "delete", 0),
+    ("dependency-info", b"./h", "relative-wd", "create", 1),
+]
+
 def cli_part(chk):
-    base = os.path.join(vlib.WORK, "tmp", "c11")
+    base = sandbox()
     shutil.rmtree(base, ignore_errors=True)
     os.makedirs(base)
     llb = private_llbuild(base)
     rng = chk.rng
-    scen = []
+    scen = list(CORPUS_CLI)
     if chk.quick():
         # every style x mode x event once, names and file variants cycling; plus extra names
         i = 0
@@ -675,13 +692,16 @@ def cli_part(chk):
         key, what, rp = cli_scenario(chk, llb, S, style, name, mode, event, variant)
         builds += len(rp["builds"])
         chk.count(("cli", style, name, mode, event, variant % 4) if event != "none" else None)
-        if k == 2:
+        if k == 0:
+            chk.cov["corpus_history"] = dict(scenario=rp["scenario"], executions=[b["executions_so_far"] for b in rp["builds"]], model=rp["model"],
+                                             model_before_ba34c0a=rp.get("model_before_ba34c0a"))
+        if k == 5:
             chk.sample(dict(kind="cli-history", scenario=rp["scenario"], deps_file_repr=rp["deps_file_repr"], builds=[(b["step"], b["exit"], b["executions_so_far"]) for b in rp["builds"]]))
         observed = None if event == "none" or key in ("cli-first-build", "spurious-reexecution") else (key is None)
         if observed is not None and observed != rp["model"]["tracks_the_path"]:
             mism.append(dict(scenario=rp["scenario"], model=rp["model"], implementation_reexecutes=observed, deps_file_repr=rp["deps_file_repr"]))
         if key:
-            # the dependency-info parser's inputs are not resolved against the working directory: one finding, one key
+            # regression of /repo ba34c0a (dependency-info inputs not resolved against the working directory): one finding, one key
             if key == "change-not-honoured" and style == "dependency-info" and mode == "relative-wd":
                 key = "depinfo-relative-path-not-resolved"
                 what = ("dependency-info style: a RELATIVE input path reported by a command that runs in a working-directory is keyed relative to the "
@@ -714,6 +734,8 @@ def cli_part(chk):
                       dict(broken="correspondence: Parse.DepsGlue.process_discovered vs ShellCommand::processDiscoveredDependencies", examples=mism[:4]),
                       found_input=False, broken="correspondence: Parse.DepsGlue.process_discovered")
     chk.cov["cli_scenarios"] = len(scen) + len(mal)
+    if not chk.violations:
+        shutil.rmtree(base, ignore_errors=True)       # failing sandboxes are kept for inspection
     chk.cov["cli_builds"] = builds
     chk.cov["traces_validated_against_impl"] = ok
 
@@ -727,6 +749,7 @@ def run(chk):
     writer_part(chk)
     glue_part(chk)
     cli_part(chk)
+    shutil.rmtree(sides(chk).bindir, ignore_errors=True)
     chk.assumptions = ["POSIX branch of lexWord and of llvm::sys::path (the Windows drive-letter branch is not modelled)",
                        "the parser models are tied to the code by differential execution (exhaustive over small alphabets, sampled beyond)",
                        "the glue of ShellCommand.cpp (DepsActions) is a local class: its path statements are replayed in parse_driver.cpp, its effect on rebuilds is observed through the llbuild CLI",
@@ -750,7 +773,7 @@ def replay(chk, rp):
                 print(err[-3000:])
     sc = rp.get("scenario")
     if sc:
-        S = os.path.join(vlib.WORK, "tmp", "c11", "replay")
+        S = os.path.join(sandbox() + "-replay", "replay")
         os.makedirs(os.path.dirname(S), exist_ok=True)
         key, what, r2 = cli_scenario(chk, private_llbuild(os.path.dirname(S)), S, sc["style"], unhx(sc["name_hex"]), sc["mode"], sc["event"], sc["variant"],
                                      malformed=unhx(sc["malformed_hex"]) if sc.get("malformed_hex") else None)
